@@ -47,6 +47,74 @@ def try_decode(bs: List[int], addr: int) -> Optional[Tuple[int, str]]:
         return None
 
 
+def _walk_operands(ins):
+    seen = set()
+    stack = list(getattr(ins, "_operands", []) or [])
+    while stack:
+        o = stack.pop()
+        if id(o) in seen or not hasattr(o, "__dict__") or type(o).__name__.endswith("Mode"):
+            continue
+        seen.add(id(o))
+        yield o
+        for k, v in vars(o).items():
+            if k.startswith("_parent"):
+                continue
+            if isinstance(v, (list, tuple)):
+                stack.extend(v)
+            elif hasattr(v, "__dict__") and not isinstance(v, type):
+                stack.append(v)
+
+
+def canonical(bs: List[int], addr: int) -> bool:
+    """True for encodings an assembler for the documented ISA can produce: register selectors of the
+    class the opcode names (ADD r1,r1 / r2,r2 / r3,r; MV/EX r2,r2 or r3,r3), unused selector bits
+    clear, absolute addresses inside the 20-bit space and not straddling its top, and a PRE prefix only
+    in front of an instruction that has an internal-memory operand.  The repository decoder is
+    lenient about these (it accepts them and gives them some meaning); what the two cores do with
+    them is outside "every valid instruction encoding"."""
+    decode, OPCODES, _ = _decoder()
+    try:
+        ins = decode(bytes(bs), addr, OPCODES)
+    except Exception:
+        return False
+    if ins is None:
+        return False
+    has_imem = False
+    name = ins.name()
+    for o in _walk_operands(ins):
+        tn = type(o).__name__
+        if "IMem" in tn:
+            has_imem = True
+        if tn == "RegPair":
+            raw = o.reg_raw
+            r1, r2 = (raw >> 4) & 7, raw & 7
+            if raw & 0x88:
+                return False
+            if name in ("MV", "EX"):
+                if not ((r1 in (2, 3) and r2 in (2, 3)) or (r1 >= 4 and r2 >= 4)):
+                    return False
+            elif o.size == 1:
+                if r1 > 1 or r2 > 1:
+                    return False
+            elif o.size == 2:
+                if r1 not in (2, 3) or r2 not in (2, 3):
+                    return False
+            elif o.size == 3:
+                if r1 < 4:
+                    return False
+        elif tn == "Reg3":
+            if o.reg_raw & 0x08:
+                return False
+        if hasattr(o, "extra_hi") and isinstance(getattr(o, "extra_hi"), int):
+            if o.extra_hi & 0xF0:
+                return False
+            if tn == "EMemAddr" and ((o.extra_hi << 16) | (o.value or 0)) > 0xFFFFC:
+                return False
+    if bs and bs[0] in PRES and not has_imem:
+        return False
+    return True
+
+
 # opcodes that are kept out of generated programs (each with its reason)
 EXCLUDED = {
     0xFF,   # RESET: jumps through the vector and rewrites system registers; exercised by machine-level properties
@@ -57,7 +125,38 @@ CONTROL = {0x02, 0x03, 0x04, 0x05, 0x06, 0x07, 0x10, 0x11, 0x12, 0x13, 0x14, 0x1
 LOWPOWER = {0xDE, 0xDF}
 
 
-def gen_instruction(r: Rng, addr: int, opcode: Optional[int] = None, allow_control: bool = True) -> Optional[List[int]]:
+_REGPAIR_SEL = {0x44: ((2, 3), (2, 3)), 0x4C: ((2, 3), (2, 3)), 0x46: ((0, 1), (0, 1)), 0x4E: ((0, 1), (0, 1)),
+                0x45: ((4, 5, 6, 7), (0, 1, 2, 3, 4, 5, 6, 7)), 0x4D: ((4, 5, 6, 7), (0, 1, 2, 3, 4, 5, 6, 7))}
+
+
+def _propose(r: Rng, op: int, canon: bool) -> List[int]:
+    bs: List[int] = []
+    if r.chance(1, 4):
+        bs.append(r.choice(PRES))
+    bs.append(op)
+    for _ in range(6):
+        bs.append(r.choice(OPERAND_BIAS) if r.chance(1, 3) else r.below(256))
+    if canon:
+        k = len(bs) - 6          # first operand byte
+        # proposals only: canonical() decides.  Selector bytes of the class the opcode names, unused
+        # selector bits clear, absolute addresses inside the 20-bit space.
+        if op in _REGPAIR_SEL:
+            a, b = _REGPAIR_SEL[op]
+            bs[k] = (r.choice(a) << 4) | r.choice(b)
+        elif op in (0xED, 0xFD):
+            cls = r.choice([(2, 3), (4, 5, 6, 7)])
+            bs[k] = (r.choice(cls) << 4) | r.choice(cls)
+        elif r.chance(3, 4):
+            bs[k] &= 0xF7
+        if r.chance(7, 8):
+            for j in (k + 2, k + 3):
+                if bs[j] & 0xF0:
+                    bs[j] = r.below(16) if r.chance(3, 4) else 0x02
+    return bs
+
+
+def gen_instruction(r: Rng, addr: int, opcode: Optional[int] = None, allow_control: bool = True,
+                    canon: bool = False) -> Optional[List[int]]:
     """One valid encoding at `addr`: optional PRE prefix + opcode + biased operand bytes."""
     for _ in range(8):
         op = opcode if opcode is not None else r.below(256)
@@ -69,22 +168,21 @@ def gen_instruction(r: Rng, addr: int, opcode: Optional[int] = None, allow_contr
             if opcode is not None:
                 return None
             continue
-        bs: List[int] = []
-        if r.chance(1, 4):
-            bs.append(r.choice(PRES))
-        bs.append(op)
-        for _ in range(6):
-            bs.append(r.choice(OPERAND_BIAS) if r.chance(1, 3) else r.below(256))
-        d = try_decode(bs, addr)
-        if d is None:
-            if opcode is not None and len(bs) > 7:
-                return None
-            continue
-        return bs[:d[0]]
+        for _attempt in range(12 if canon else 1):
+            bs = _propose(r, op, canon)
+            d = try_decode(bs, addr)
+            if d is None:
+                continue
+            if canon and not canonical(bs[:d[0]], addr):
+                continue
+            return bs[:d[0]]
+        if opcode is not None:
+            return None
     return None
 
 
-def gen_program(r: Rng, n_instr: int, allow_control: bool = True, base: int = CODE_LO) -> Tuple[List[int], List[int]]:
+def gen_program(r: Rng, n_instr: int, allow_control: bool = True, base: int = CODE_LO,
+                canon: bool = False) -> Tuple[List[int], List[int]]:
     """Straight-line-ish program at CODE_LO: returns (bytes, instruction start offsets).
     Control transfers are kept (both replicas must agree wherever they go); near jumps are
     re-targeted into the code region half of the time so that loops and calls really run."""
@@ -92,7 +190,7 @@ def gen_program(r: Rng, n_instr: int, allow_control: bool = True, base: int = CO
     starts: List[int] = []
     while len(starts) < n_instr and len(code) < (CODE_HI - CODE_LO - 16):
         addr = base + len(code)
-        ins = gen_instruction(r, addr, allow_control=allow_control)
+        ins = gen_instruction(r, addr, allow_control=allow_control, canon=canon)
         if ins is None:
             continue
         op = ins[1] if ins[0] in PRES and len(ins) > 1 else ins[0]
